@@ -73,8 +73,8 @@ def orbit_reference(number, choice, sites, occ):
     return classes
 
 
-def replay_orbit(data):
-    """real API on a concrete structure against the exact orbit"""
+def _replay_orbit_one(data):
+    """real API on a concrete structure against the exact orbit (images must agree to 1e-9: doubles are good to 1e-15)"""
     from chmpy.crystal import Crystal, SpaceGroup, AsymmetricUnit
     from chmpy.crystal.symmetry_operation import SymmetryOperation
     from chmpy.core.element import Element
@@ -93,6 +93,12 @@ def replay_orbit(data):
         kw["tolerance"] = float(data["tolerance"])
     res = c.unit_cell_atoms(**kw)
     ref = orbit_reference(number, choice, sites, occ)
+    # the property's domain: distinct images are kept away from the merge tolerance (0.01, plain distance of the wrapped coordinates)
+    W = np.array([[float(v) for v in cl["frac"]] for cl in ref])
+    if len(W) > 1:
+        dd = np.abs(W[:, None, :] - W[None, :, :]).max(axis=2) + 10 * np.eye(len(W))
+        if dd.min() < 0.03:
+            return False, ["structure outside the property's domain: two distinct images %.4f apart" % dd.min()]
     bad = []
     n = len(res["frac_pos"])
     for key in ("asym_atom", "element", "symop", "label", "occupation", "cart_pos"):
@@ -108,7 +114,7 @@ def replay_orbit(data):
         w = np.array([float(v) for v in cl["frac"]])
         d = np.abs(fp - w)
         d = np.minimum(d, 1 - d).max(axis=1)
-        m = [i for i in range(n) if d[i] < 1e-6 and int(res["asym_atom"][i]) == cl["k"]]
+        m = [i for i in range(n) if d[i] < 1e-9 and int(res["asym_atom"][i]) == cl["k"]]
         if len(m) != 1:
             bad.append("image %s of site %d appears %d times (expected once)" % ([str(v) for v in cl["frac"]], cl["k"], len(m)))
             continue
@@ -123,7 +129,7 @@ def replay_orbit(data):
         else:
             img = np.asarray(SymmetryOperation.from_integer_code(int(res["symop"][i])).apply(np.array([[float(v) for v in sites[cl["k"]]]])), float)[0]
             dd = np.abs(img - w) % 1
-            if np.minimum(dd, 1 - dd).max() > 1e-6:
+            if np.minimum(dd, 1 - dd).max() > 1e-9:
                 bad.append("decoded generator %d applied to site %d gives %s, row is %s" % (int(res["symop"][i]), cl["k"], img.tolist(), w.tolist()))
     if any(h == 0 for h in hits):
         bad.append("%d row(s) of the unit cell are no image of their parent site" % sum(1 for h in hits if h == 0))
@@ -131,9 +137,34 @@ def replay_orbit(data):
     want = float(sum(occ) * len(sg.symmetry_operations))
     if abs(tot - want) > 1e-9 * max(1, want):
         bad.append("total occupancy %.9g, asymmetric unit x operations = %.9g" % (tot, want))
-    if not np.allclose(np.asarray(res["cart_pos"], float), fp @ np.asarray(uc.direct, float), atol=1e-9):
+    if not np.allclose(np.asarray(res["cart_pos"], float), fp @ np.asarray(uc.direct, float), rtol=0, atol=1e-9):
         bad.append("cart_pos is not frac_pos . direct")
     return bool(bad), bad[:4]
+
+
+def replay_orbit(data):
+    """the structure of the counterexample, then sites on the special positions built from halves, thirds, quarters and
+    sixths (where images land exactly on cell faces and must still merge)"""
+    r, det = _replay_orbit_one(data)
+    if r or data.get("_single"):
+        return r, det
+    fr = ["0", "1/2", "1/3", "2/3", "1/4", "3/4", "1/6", "5/6"]
+    rng = np.random.default_rng(5)
+    tried = 0
+    for _ in range(60):
+        site = [fr[int(i)] for i in rng.integers(0, len(fr), 3)]
+        if rng.random() < 0.5:
+            site[int(rng.integers(0, 3))] = str(Fraction(int(rng.integers(1, 97)), 97))
+        d2 = dict(data)
+        d2.update(sites=[site], occ=["1/4"], Z=[int(data["Z"][0])], labels=[str((data.get("labels") or ["X0"])[0])], _single=True)
+        try:
+            r2, det2 = _replay_orbit_one(d2)
+        except Exception as e:
+            r2, det2 = True, ["site %s: %s: %s" % (site, type(e).__name__, e)]
+        tried += 1
+        if r2:
+            return True, ["site %s: %s" % (site, det2[0])] + list(det2[1:2])
+    return False, ["counterexample structure and %d special-position sites agree with the exact orbit" % tried]
 
 
 REPLAY = {"orbit": replay_orbit}
